@@ -10,8 +10,7 @@ The state has three layers:
   harness uses), the sticky flags (`rd` = consumer_dropped / receiver_dropped, `pd` =
   producer_dropped), the mpsc-bounded unpublished-progress counter (`unpub`, finding F14), the
   oneshot state word, and the rendezvous waiter queues;
-* ghost history: `created` (every value ever passed to a send form), `held` (in the hands of an
-  operation in progress / parked in a waiter record), `sentOk` (accepted by the channel, in
+* ghost history: `created` (every value ever passed to a send form), `sentOk` (accepted by the channel, in
   linearization order), `consumed` (removed from the front of the buffer, in order), `recvOk`
   (delivered to a receiver), `returned` (handed back inside an error), `lost` (dropped by a failing
   `send`, whose error type carries no value), `chanDropped` (destroyed by the channel itself),
@@ -96,7 +95,7 @@ structure St where
   sw : List (Nat × Nat × Val) := []  -- parked senders (thread, handle idx, item), FIFO
   rw : List (Nat × Nat) := []      -- parked / registered receivers (thread, handle idx), FIFO; records of cancelled-but-not-yet-unlinked timed receivers stay here (F1)
   rcanc : List Nat := []           -- timed receivers past their CAS WAITING→CANCELLED, not yet unlinked
-  sdone : List Nat := []           -- senders whose item was taken
+  sdone : List (Nat × Val) := []   -- senders whose item was taken
   sdisc : List (Nat × Val) := []   -- senders disconnected by the last receiver (item still theirs)
   rdone : List (Nat × Val) := []   -- receivers that were handed an item
   rdisc : List Nat := []           -- receivers disconnected by the last sender
@@ -106,7 +105,6 @@ structure St where
   tomb : Nat := 0
   -- ghost
   created : List Val := []
-  held : List Val := []
   sentOk : List Val := []
   consumed : List Val := []
   recvOk : List Val := []
@@ -181,15 +179,14 @@ def sendersGone (s : St) : Bool := s.sc == 0
 
 /-! ## primitive transformers; every operation is a composition of these -/
 
-/-- a send form takes the values out of the caller's hands -/
+/-- a send form takes the values out of the caller's hands (they are "in hand" of the operation in
+progress until it places them somewhere) -/
 def St.create (s : St) (vs : List Val) : St :=
-  { s with created := s.created ++ vs, held := s.held ++ vs }
+  { s with created := s.created ++ vs }
 
-def removeAll (l : List Val) (vs : List Val) : List Val := l.filter (fun x => !vs.contains x)
-
-/-- move `vs` (held) into the buffer, tagged with the sending handle -/
+/-- move `vs` (in hand) into the buffer, tagged with the sending handle -/
 def St.push (s : St) (p : Nat) (vs : List Val) : St :=
-  { s with buf := s.buf ++ vs, held := removeAll s.held vs, sentOk := s.sentOk ++ vs,
+  { s with buf := s.buf ++ vs, sentOk := s.sentOk ++ vs,
            sentBy := s.sentBy ++ vs.map (fun v => (p, v)) }
 
 /-- deliver the first `k` buffered values to receiver handle `r` -/
@@ -197,13 +194,13 @@ def St.pop (s : St) (r : Nat) (k : Nat) : St :=
   { s with buf := s.buf.drop k, consumed := s.consumed ++ s.buf.take k, recvOk := s.recvOk ++ s.buf.take k,
            recvBy := s.recvBy ++ (s.buf.take k).map (fun v => (r, v)) }
 
-/-- hand `vs` (held) back to the caller -/
+/-- hand `vs` (in hand) back to the caller -/
 def St.giveBack (s : St) (vs : List Val) : St :=
-  { s with held := removeAll s.held vs, returned := s.returned ++ vs }
+  { s with returned := s.returned ++ vs }
 
-/-- `vs` (held) are dropped by a failing operation whose error carries no value -/
+/-- `vs` (in hand) are dropped by a failing operation whose error carries no value -/
 def St.lose (s : St) (vs : List Val) : St :=
-  { s with held := removeAll s.held vs, lost := s.lost ++ vs }
+  { s with lost := s.lost ++ vs }
 
 /-- the channel destroys everything it still buffers (receiver close in mpsc-unbounded / oneshot, teardown) -/
 def St.drainBuf (s : St) : St :=
@@ -211,22 +208,30 @@ def St.drainBuf (s : St) : St :=
 
 /-- rendezvous hand-off: the value goes from the sender's hands straight to a receiver -/
 def St.handOff (s : St) (p r : Nat) (v : Val) : St :=
-  { s with held := removeAll s.held [v], sentOk := s.sentOk ++ [v], consumed := s.consumed ++ [v],
+  { s with sentOk := s.sentOk ++ [v], consumed := s.consumed ++ [v],
            recvOk := s.recvOk ++ [v], sentBy := s.sentBy ++ [(p, v)], recvBy := s.recvBy ++ [(r, v)] }
 
 /-- rendezvous F1: the value goes to a receiver record that was already cancelled; the sender is told Ok,
 the receiver drops it -/
 def St.handOffLost (s : St) (p : Nat) (v : Val) : St :=
-  { s with held := removeAll s.held [v], sentOk := s.sentOk ++ [v], consumed := s.consumed ++ [v],
+  { s with sentOk := s.sentOk ++ [v], consumed := s.consumed ++ [v],
            chanDropped := s.chanDropped ++ [v], sentBy := s.sentBy ++ [(p, v)] }
 
 /-! ## token locations (C09), derived -/
+
+/-- values parked in rendezvous sender records (still owned by their sender) -/
+def St.parked (s : St) : List Val := s.sw.map (·.2.2) ++ s.sdisc.map (·.2)
+
+/-- every place a token can be once it left the hands of the operation that offered it -/
+def St.placed (s : St) : List Val :=
+  s.buf ++ s.recvOk ++ s.returned ++ s.lost ++ s.chanDropped ++ s.parked
+
 def St.loc (s : St) (v : Val) : Loc :=
-  if s.held.contains v then .inHand
-  else if s.buf.contains v then .buffered
+  if s.buf.contains v then .buffered
   else if s.recvOk.contains v then .delivered
   else if s.returned.contains v then .returned
   else if s.lost.contains v || s.chanDropped.contains v then .dropped
+  else if s.created.contains v then .inHand
   else .unknown
 
 /-- how many times the payload's `Drop` has run for `v` once every handle is gone: delivered values
@@ -234,10 +239,6 @@ are dropped by the receiving side of the harness, returned values by the sending
 the channel. -/
 def St.dropCount (s : St) (v : Val) : Nat :=
   s.recvOk.count v + s.returned.count v + s.lost.count v + s.chanDropped.count v
-
-/-- all places a created token can be, as one list (the ledger) -/
-def St.ledger (s : St) : List Val :=
-  s.held ++ s.buf ++ s.recvOk ++ s.returned ++ s.lost ++ s.chanDropped
 
 /-! ## initial state -/
 def pubChunk (cap : Nat) (isAsync : Bool) : Nat := if isAsync then cap else min cap 64
